@@ -8,6 +8,7 @@ import random
 
 from .. import diff, runner, upstream
 from ..gen.timegen import TimeGen
+from ..gen import idioms
 from ..model import ast as A
 from . import common
 
@@ -16,7 +17,8 @@ RULE = ('random histories of 2-5 try blocks per run (undo/stop, inside loops, le
         'containing tries), preempt in try bodies and (recursive) defeat functions 1-3 deep, ?? with side-effecting '
         'operands, infinite loops inside try bodies; each at word sizes 2,3,4, checked and unchecked; non-trivial = the '
         'model needed >= 1 backtrack and executed >= 2 try blocks, or a preempt was forced, or a ?? left side was '
-        'skipped; distinct by hash of (source, args)')
+        'skipped; distinct by hash of (source, args); plus the enumerated ?? grid of gen/idioms.py (7 left x 8 right operand '
+        'kinds in 13 expression positions, 5 argument vectors)')
 ASSUMPTIONS = common.ISA_ASSUMPTIONS
 REQUIRED_HIDC_FUNCTIONS = ['codegen/generator:CodeGen.gen_block', 'codegen/generator:CodeGen.truth_is_defeat']     # M-COV: deciding code never entered => inconclusive
 MIN_NONTRIVIAL = {'quick': 100, 'thorough': 1000}
@@ -27,6 +29,7 @@ def plan(tier, seed):
     n, per = (16, 30) if tier == 'quick' else (64, 100)
     specs = [{'kind': 'gen', 'seed': s, 'count': per} for s in common.shard_seeds(seed, n)]
     specs.append({'kind': 'upstream'})
+    specs += [{'kind': 'specgrid', 'part': i, 'parts': 4} for i in range(4)]
     specs += [{'kind': 'examples', 'seed': seed * 100 + j} for j in range(4 if tier == 'quick' else 16)]
     return specs
 
@@ -100,6 +103,13 @@ def run_shard(spec):
         return res
     if spec['kind'] == 'examples':
         run_examples(res, spec['seed'])
+        return res
+    if spec['kind'] == 'specgrid':
+        rng = random.Random(0)
+        for k, (tag, prog) in enumerate(idioms.spec_programs()):
+            if k % spec['parts'] == spec['part']:
+                for args in idioms.SPEC_ARGS:
+                    check_program(res, prog, args, rng, tag)
         return res
     rng = random.Random(spec['seed'])
     for i in range(spec['count']):
